@@ -251,6 +251,15 @@ class CallMixin:
                 finally:
                     self.frames.pop()
 
+    def pc_status(self):
+        """'sat' / 'unsat' / 'unknown' for the current path condition (short budget)."""
+        sv = z3.Solver()
+        sv.set('timeout', 1500)
+        for h in self.st.pc:
+            sv.add(h)
+        r = sv.check()
+        return 'sat' if r == z3.sat else ('unsat' if r == z3.unsat else 'unknown')
+
     def call_site_name(self, fi, node):
         """Name of a call site for precondition obligations: the callee and the ordinal of this call among the
         calls of that callee in the enclosing function (source order) - stable when the ARGUMENT TEXT changes, so
@@ -454,8 +463,26 @@ class CallMixin:
                 else:
                     result = self.fresh(c.returns, 'ret') if c.returns is not None else NONE
                 env['result'] = result
-                for nm, e in c.ensures:
-                    self.assume_spec(e)
+                if c.ensures:
+                    # vacuity guard: assumed postconditions of a callee must not contradict the path
+                    # (e.g. an ensures about the class of a result whose declared sort excludes it)
+                    seen = self.__dict__.setdefault('_vacuity_checked', {})
+                    nseen = seen.get(c.key, 0)
+                    seen[c.key] = nseen + 1
+                    # (a contradictory callee contract shows at its first applications: checked for the first three
+                    # applications of each callee contract per function under contract, to keep the cost bounded)
+                    before = self.pc_status() if nseen < 3 else 'unknown'
+                    try:
+                        for nm, e in c.ensures:
+                            self.assume_spec(e)
+                    except PathEnd:
+                        if before == 'sat':
+                            raise EngineLimit(f'the assumed postconditions of callee contract {c.key} are contradictory '
+                                              f'at this call (they would silently end the path)')
+                        raise
+                    if before == 'sat' and self.pc_status() == 'unsat':
+                        raise EngineLimit(f'the assumed postconditions of callee contract {c.key} are contradictory '
+                                          f'at this call (everything after it would be vacuous)')
                 return result
             cls = outcomes[k]
             r = c.raises[cls]
@@ -785,6 +812,7 @@ class CallMixin:
         Returns list of PathResult."""
         fi = self.repo.find_function(contract.key)
         self.top_contract = contract
+        self._vacuity_checked = {}
         self.validate_anchors(fi, contract)
         self.worklist = [[]]
         results = []
